@@ -11,8 +11,9 @@
    and C18_works_after_removal: once the offending method is unregistered every probe equals the fresh function.
    Both are FALSE of the faithful model (C18_safe_after_failure_refuted, C18_works_after_removal_refuted; witnesses below).
    PROVED (C18_partial...): the same conclusion on the decidable domain [safe_point] -- every step boundary of a call
-   except (KF-19) inside compile after the entry-point swap and (KF-20) inside resolve's write loop between its first and
-   last write -- and for rebuilds: any change made while _compiled is set repairs everything. *)
+   except (KF-19) inside compile after the entry-point swap; since the repair of KF-20 (/repo 7cfed94: the first-rank entry
+   is written last) every point of resolve's write loop is inside the domain -- and for rebuilds: any change made while
+   _compiled is set repairs everything. *)
 From Coq Require Import List Bool Arith.
 Import ListNotations.
 From OvldV Require Import Model.BuildM Spec.BuildSpec Proofs.BuildBase Proofs.BuildSeq Proofs.BuildWit.
@@ -59,14 +60,16 @@ Theorem C18_refuted_rebuild :
 Proof. exact wit_rebuild. Qed.
 Print Assumptions C18_refuted_rebuild.
 
-(* KF-20: interrupt between the first-rank write and the continuation writes: call_next reports "no method" for ever *)
-Theorem C18_refuted_resolve :
+(* KF-20 is repaired: an interrupt anywhere in resolve's write loop (step 4 below: after the first write, which is now the
+   continuation entry) is harmless.  The general statement is C18_partial (the window lies inside [safe_point]); this is the
+   former witness, now a positive instance: all 12 failure points of the call, every probe allowed. *)
+Theorem C18_resolve_window_safe :
   in_write_window (snd (run_alone wchain wmeth 4 s_built1 (start (OCall 0)))) = true /\
-  probes wchain wmeth 100 (fail_after wchain wmeth 4 s_built1 (OCall 0)) [0; 0] = [Some ([0], RErr ENoMethod); Some ([0], RErr ENoMethod)] /\
-  fresh_outcome wchain wmeth [0; 1] 0 = ([0; 1], RRet) /\
-  all_allowed wchain wmeth 100 (fail_after wchain wmeth 4 s_built1 (OCall 0)) [0; 0] = false.
-Proof. exact wit_resolve. Qed.
-Print Assumptions C18_refuted_resolve.
+  l_pc (snd (run_alone wchain wmeth 4 s_built1 (start (OCall 0)))) = PWrite 0 0 None true [WDict (0, 0) 0] /\
+  probes wchain wmeth 100 (fail_after wchain wmeth 4 s_built1 (OCall 0)) [0; 0] = [Some ([0; 1], RRet); Some ([0; 1], RRet)] /\
+  forallb (fun n => all_allowed wchain wmeth 100 (fail_after wchain wmeth n s_built1 (OCall 0)) [0; 1; 2; 0]) (seq 0 12) = true.
+Proof. exact wit_resolve_fixed. Qed.
+Print Assumptions C18_resolve_window_safe.
 
 (* KF-45: interrupt between recording a new method and the rebuild: registered, never dispatched to *)
 Theorem C18_refuted_stale :
@@ -123,8 +126,8 @@ Theorem C18_meth_inhabited : MethOk wmeth.
 Proof. exact wmeth_rec. Qed.
 Print Assumptions C18_meth_inhabited.
 
-(* the proved domain is the complement of the union of the classifiers of KF-19 (in_fill_window) and KF-20 (in_write_window) *)
-Theorem C18_domain_complement : forall l, safe_point l = negb (in_fill_window l) && negb (in_write_window l).
+(* the proved domain is the complement of the classifier of the one open finding that concerns calls, KF-19 (in_fill_window) *)
+Theorem C18_domain_complement : forall l, safe_point l = negb (in_fill_window l).
 Proof. exact safe_point_complement. Qed.
 Print Assumptions C18_domain_complement.
 
@@ -132,7 +135,8 @@ Example C18_partial_inhabited :
   safe_point (snd (run_alone wchain wmeth 4 (init [0; 1; 2]) (start (OCall 0)))) = true /\
   probes wchain wmeth 100 (fail_after wchain wmeth 4 (init [0; 1; 2]) (OCall 0)) [0; 1; 2] = map Some (map (spec_call wchain wmeth [0; 1; 2]) [0; 1; 2]) /\
   safe_point (snd (run_alone wchain wmeth 3 s_built1 (start (OCall 0)))) = true /\
-  safe_point (snd (run_alone wchain wmeth 4 s_built1 (start (OCall 0)))) = false /\
+  safe_point (snd (run_alone wchain wmeth 4 s_built1 (start (OCall 0)))) = true /\
+  safe_point (snd (run_alone wchain wmeth 8 (init [0; 1; 2]) (start (OCall 0)))) = false /\
   safe_point (snd (run_alone wchain wmeth 5 s_built1 (start (OCall 0)))) = true /\
   spec_call wchain wmeth [0; 1; 2] 0 = ([0; 1], RRet).
 Proof. exact partial_call_inhabited. Qed.
